@@ -1,4 +1,269 @@
-//! C10: harness domain (stub).
+//! C10: identifiers received from a peer are re-emitted byte-for-byte, wherever nested and however converted.
+use crate::canon::{hex, hexarg, term_text};
+use crate::tgen::{gen_node, gen_pid, gen_port, gen_ref, gen_term, gen_u32, gen_u64, Cfg};
 use crate::Ctx;
+use erltf::types::{Atom, ExternalPid, ExternalPort, ExternalReference, InternalFun};
+use erltf::{BorrowedTerm, OwnedTerm};
+use std::collections::BTreeMap;
+use std::hash::{Hash, Hasher};
 
-pub fn run(_ctx: &mut Ctx) {}
+fn put_atom(v: &mut Vec<u8>, a: &str) {
+    v.push(119);
+    v.push(a.len() as u8);
+    v.extend_from_slice(a.as_bytes());
+}
+
+/// bytes of one identifier in a randomly chosen wire form (modern, legacy where the fields fit, LOCAL_EXT around either)
+fn ident_bytes(ctx: &mut Ctx) -> (Vec<u8>, &'static str) {
+    let r = &mut ctx.rng;
+    let node = gen_node(r);
+    let node = if node.as_str().len() > 200 { Atom::new("n@h") } else { node };
+    let mut v = vec![];
+    let kind;
+    match r.below(3) {
+        0 => {
+            let (id, serial, creation) = (gen_u32(r), gen_u32(r), gen_u32(r));
+            if r.chance(1, 4) {
+                kind = "pid-legacy";
+                v.push(103);
+                put_atom(&mut v, node.as_str());
+                v.extend_from_slice(&id.to_be_bytes());
+                v.extend_from_slice(&serial.to_be_bytes());
+                v.push(creation as u8);
+            } else {
+                kind = "pid";
+                v.push(88);
+                put_atom(&mut v, node.as_str());
+                v.extend_from_slice(&id.to_be_bytes());
+                v.extend_from_slice(&serial.to_be_bytes());
+                v.extend_from_slice(&creation.to_be_bytes());
+            }
+        }
+        1 => {
+            let (id, creation) = (gen_u64(r), gen_u32(r));
+            match r.below(4) {
+                0 => {
+                    kind = "port-legacy";
+                    v.push(102);
+                    put_atom(&mut v, node.as_str());
+                    v.extend_from_slice(&(id as u32).to_be_bytes());
+                    v.push(creation as u8);
+                }
+                1 => {
+                    kind = "port-new";
+                    v.push(89);
+                    put_atom(&mut v, node.as_str());
+                    v.extend_from_slice(&(id as u32).to_be_bytes());
+                    v.extend_from_slice(&creation.to_be_bytes());
+                }
+                _ => {
+                    kind = "port";
+                    v.push(120);
+                    put_atom(&mut v, node.as_str());
+                    v.extend_from_slice(&id.to_be_bytes());
+                    v.extend_from_slice(&creation.to_be_bytes());
+                }
+            }
+        }
+        _ => {
+            let n = r.range(1, 5) as usize;
+            let ids: Vec<u32> = (0..n).map(|_| gen_u32(r)).collect();
+            let creation = gen_u32(r);
+            if r.chance(1, 4) {
+                kind = "ref-legacy";
+                v.push(114);
+                v.extend_from_slice(&(n as u16).to_be_bytes());
+                put_atom(&mut v, node.as_str());
+                v.push(creation as u8);
+            } else {
+                kind = "ref";
+                v.push(90);
+                v.extend_from_slice(&(n as u16).to_be_bytes());
+                put_atom(&mut v, node.as_str());
+                v.extend_from_slice(&creation.to_be_bytes());
+            }
+            for i in ids {
+                v.extend_from_slice(&i.to_be_bytes());
+            }
+        }
+    }
+    (v, kind)
+}
+
+fn local_wrap(ctx: &mut Ctx, inner: &[u8]) -> Vec<u8> {
+    let mut v = vec![121u8];
+    v.extend(ctx.rng.bytes(8));
+    v.extend_from_slice(inner);
+    v
+}
+
+/// put the identifier bytes into a random container context (tuple, list, list tail, map key/value, fun environment)
+fn in_context(ctx: &mut Ctx, id: &[u8], depth: u32) -> (Vec<u8>, &'static str) {
+    let r = &mut ctx.rng;
+    let mut v = vec![];
+    let k = r.below(7);
+    let name = match k {
+        0 => {
+            v.extend_from_slice(&[104, 2, 97, 1]);
+            v.extend_from_slice(id);
+            "tuple"
+        }
+        1 => {
+            v.extend_from_slice(&[108, 0, 0, 0, 2]);
+            v.extend_from_slice(id);
+            v.extend_from_slice(&[97, 7, 106]);
+            "list"
+        }
+        2 => {
+            v.extend_from_slice(&[108, 0, 0, 0, 1, 97, 1]);
+            v.extend_from_slice(id);
+            "tail"
+        }
+        3 => {
+            v.extend_from_slice(&[116, 0, 0, 0, 1]);
+            v.extend_from_slice(id);
+            v.extend_from_slice(&[97, 1]);
+            "mapkey"
+        }
+        4 => {
+            v.extend_from_slice(&[116, 0, 0, 0, 1, 97, 1]);
+            v.extend_from_slice(id);
+            "mapval"
+        }
+        5 => {
+            // NEW_FUN_EXT with the identifier as its only free variable
+            let mut body = vec![2u8];
+            body.extend_from_slice(&[9u8; 16]);
+            body.extend_from_slice(&[0, 0, 0, 1, 0, 0, 0, 1]);
+            put_atom(&mut body, "m");
+            body.extend_from_slice(&[97, 3, 97, 4]);
+            body.push(88);
+            put_atom(&mut body, "a@h");
+            body.extend_from_slice(&[0, 0, 0, 1, 0, 0, 0, 2, 0, 0, 0, 3]);
+            body.extend_from_slice(id);
+            v.push(112);
+            v.extend_from_slice(&((body.len() + 4) as u32).to_be_bytes());
+            v.extend_from_slice(&body);
+            "funenv"
+        }
+        _ => {
+            v.extend_from_slice(id);
+            "bare"
+        }
+    };
+    if depth > 0 && ctx.rng.chance(1, 2) {
+        let (w, _) = in_context(ctx, &v, depth - 1);
+        return (w, name);
+    }
+    (v, name)
+}
+
+fn h64<T: Hash>(t: &T) -> u64 {
+    let mut s = std::collections::hash_map::DefaultHasher::new();
+    t.hash(&mut s);
+    s.finish()
+}
+
+fn convert(ctx: &mut Ctx, t: OwnedTerm) -> OwnedTerm {
+    let mut t = t;
+    let n = ctx.rng.below(7);
+    for _ in 0..n {
+        t = match ctx.rng.below(4) {
+            0 => t.clone(),
+            1 => BorrowedTerm::from(&t).to_owned(),
+            2 => {
+                let b = BorrowedTerm::from(&t);
+                let b2 = b.clone();
+                b2.to_owned()
+            }
+            _ => {
+                let moved = t;
+                moved
+            }
+        };
+        ctx.count("conversions");
+    }
+    t
+}
+
+pub fn run(ctx: &mut Ctx) {
+    let n = ctx.n(1500, 60000);
+    for _ in 0..n {
+        let (id, kind) = ident_bytes(ctx);
+        let local = ctx.rng.chance(1, 2);
+        let idb = if local { local_wrap(ctx, &id) } else { id.clone() };
+        let (body, cname) = in_context(ctx, &idb, 2);
+        ctx.count(&format!("kind_{}{}", kind, if local { "_local" } else { "" }));
+        ctx.count(&format!("context_{}", cname));
+        let mut bytes = vec![131u8];
+        bytes.extend_from_slice(&body);
+        let (dr, dt) = crate::c01::dec_result(&bytes);
+        ctx.tie("gen", &format!("dec {} -", hexarg(&bytes)), &dr);
+        let Some(t) = dt else {
+            ctx.fail("c10-own-bytes-rejected", &format!("{} {}", hex(&bytes), dr));
+            continue;
+        };
+        let t2 = convert(ctx, t.clone());
+        let (er, eb) = crate::c01::enc_result(&t2);
+        ctx.tie("gen", &format!("enc {}", term_text(&t2)), &er);
+        // the property: identifier-canonical input (modern form or LOCAL_EXT around anything) comes back byte for byte
+        let canonical = local || !kind.ends_with("legacy") && kind != "port-new";
+        if canonical {
+            if eb.as_deref() != Some(&bytes[..]) {
+                ctx.fail("c10-not-reemitted", &format!("in={} out={}", hex(&bytes), er));
+            }
+        } else {
+            ctx.count("legacy_plain_form");
+        }
+        if t2 != t || h64(&t2) != h64(&t) || t2.cmp(&t) != std::cmp::Ordering::Equal {
+            ctx.fail("c10-conversion-changes-term", &format!("{} vs {}", term_text(&t), term_text(&t2)));
+        }
+    }
+    // identifiers compare and hash by their logical fields only
+    for _ in 0..n / 3 {
+        let p = gen_pid(&mut ctx.rng, false);
+        let pl = ExternalPid::with_local_ext_bytes(p.node.clone(), p.id, p.serial, p.creation, ctx.rng.bytes(20));
+        let q = gen_port(&mut ctx.rng, false);
+        let ql = ExternalPort::with_local_ext_bytes(q.node.clone(), q.id, q.creation, ctx.rng.bytes(20));
+        let r = gen_ref(&mut ctx.rng, false, false);
+        let rl = ExternalReference::with_local_ext_bytes(r.node.clone(), r.creation, r.ids.clone(), ctx.rng.bytes(20));
+        if p != pl || h64(&p) != h64(&pl) || p.cmp(&pl) != std::cmp::Ordering::Equal {
+            ctx.fail("c10-logical-identity", &format!("pid {:?}", p));
+        }
+        if q != ql || h64(&q) != h64(&ql) || q.cmp(&ql) != std::cmp::Ordering::Equal {
+            ctx.fail("c10-logical-identity", &format!("port {:?}", q));
+        }
+        if r != rl || h64(&r) != h64(&rl) || r.cmp(&rl) != std::cmp::Ordering::Equal {
+            ctx.fail("c10-logical-identity", &format!("ref {:?}", r));
+        }
+        // and different logical fields are told apart
+        let p2 = ExternalPid::with_local_ext_bytes(p.node.clone(), p.id.wrapping_add(1), p.serial, p.creation, pl.local_ext_bytes.clone().unwrap());
+        if p2 == pl || OwnedTerm::Pid(p2.clone()).cmp(&OwnedTerm::Pid(pl.clone())) == std::cmp::Ordering::Equal {
+            ctx.fail("c10-logical-identity", &format!("pid with different id equal {:?}", p2));
+        }
+        ctx.count("identity_checks");
+        // model tie of the comparison
+        let (a, b) = (OwnedTerm::Pid(pl.clone()), OwnedTerm::Pid(p2));
+        let o = match a.cmp(&b) {
+            std::cmp::Ordering::Less => "lt",
+            std::cmp::Ordering::Equal => "eq",
+            std::cmp::Ordering::Greater => "gt",
+        };
+        ctx.tie("gen", &format!("c11cmp {} {}", term_text(&a), term_text(&b)), o);
+    }
+    // generated whole terms with identifiers in local form: encode/decode/encode
+    let cfg = Cfg { huge: false, ..Cfg::default() };
+    for _ in 0..n / 3 {
+        let t = gen_term(&mut ctx.rng, &cfg, 0);
+        let Ok(b) = erltf::encode(&t) else { continue };
+        let Ok(d) = erltf::decode(&b) else {
+            ctx.fail("c10-own-bytes-rejected", &hex(&b));
+            continue;
+        };
+        let d2 = convert(ctx, d);
+        if erltf::encode(&d2).ok().as_deref() != Some(&b[..]) {
+            ctx.fail("c10-not-reemitted", &format!("term {}", term_text(&t)));
+        }
+    }
+    let _ = (BTreeMap::<u8, u8>::new(), InternalFun::new);
+}
